@@ -4,7 +4,7 @@ import core, sx, shapes
 from core import hbump
 from props import dcommon
 
-LEVEL = 'exploration'
+LEVEL = 'proof'
 FEATURES = ('debug_diffs',)
 ASSUMPTIONS = [
     'the generated code is modelled per template (Model/Derive.lean); rustc type-checks it; PartialEq/Clone/Hash of user types are lawful',
